@@ -35,7 +35,7 @@ T = {
  "C09": ("Lean 4 proof that Locate is a function of x alone from every cache state + class A/D correspondence on long histories and object pools",
          "Proved for every table, search state and history: the index search brackets x, is canonical (same index from hunting up/down and bisection, also at knots and in the closed zone), every query answer is independent of the history, prefactors act exactly. Tied to /repo by comparing Locate indices along call sequences of thousands of steps and used objects/copies against fresh objects bit-for-bit; prefactor scaling bit-equal to factor x unit output.",
          "exact arithmetic"),
- "C10": ("Lean 4 proof of guard <-> meaningfulness per entry point on guards REGENERATED from the source on every run (translators/guards.py: 95 guards and 81 early-exit lists, gen_*_eq / gen_*_early_eq theorems, 279 obligations) + outcome correspondence under ASan/UBSan",
+ "C10": ("Lean 4 proof of guard <-> meaningfulness per entry point on guards REGENERATED from the source on every run (translators/guards.py: 95 guards and 81 early-exit lists, gen_*_eq / gen_*_early_eq theorems, 282 obligations) + outcome correspondence under ASan/UBSan",
          "For each guarded entry point: the regenerated guard equals the model's guard for all arguments, the model's guard fires exactly on meaningless requests, and meaningful requests never index out of range, also after object histories (Resize/Assign/Delete). Tied to /repo by running every entry point on both sides of every guard (zero margin at the 1% edge, tables of length 0..3, parameters on both sides of their range) in a forked child of the sanitizer build.",
          "actual memory safety is observed by the sanitizers; the translator (Python) is trusted and cross-checked by the equality proofs and the correspondence run"),
  "C11": ("Lean 4 proof of best-so-far invariants and the exit rule of Bracket/Brent/Nelder-Mead for every objective (constants regenerated) + trace correspondence on distinct points + descent/convergence oracle",
@@ -107,7 +107,7 @@ def main():
              engines=[dict(name="lean4-proof+correspondence", path="/verif/check.py", serves_properties=[c["property_id"] for c in checks],
                            kind_free_text="Lean 4 theorems about a hand-written executable model (lake build + #print axioms audit every run), tied to /repo by a correspondence run of the compiled library (ASan/UBSan) against the compiled Lean driver on generated requests, plus a property oracle on the library's own output that produces the replay")],
              checks=checks,
-             notes="python3 check.py <Cxx> --tier quick|thorough; VERIF_SEED selects the generator seed; fixes to /repo are `fix:` commits listed in known_findings.json; see DESIGN.md",
+             notes="python3 check.py <Cxx> --tier quick|thorough; VERIF_SEED selects the generator seed; fixes to /repo are `fix:` commits listed in known_findings.json; every request list is run twice (clean environment, and with sticky FP flags raised / errno set before each request) and must agree bit for bit; concurrent callers and directed rounding modes are outside every quantifier (DESIGN.md section 9); see DESIGN.md",
              not_applicable=na)
     json.dump(m, open(os.path.join(VERIF, "MANIFEST.json"), "w"), indent=1)
     print("claimed:", [c["property_id"] for c in checks], "not claimed:", [n["property_id"] for n in na])
